@@ -655,6 +655,38 @@ async def main(args):
                 jobs.append(rebind(ck, client_id + 50 + rep, sess_id))
         await asyncio.gather(*jobs)
         await asyncio.sleep(0.5)
+        # ---------------- a reverse-UDP client whose session expired sends again (listener bound to 127.0.0.1 and dual-stack [::]):
+        # the new datagrams belong to a new session and must be served like the first ones
+        PE = {k: free_port() for k in ("rev6", "rev4", "api")}
+        E = Proxy(args.bin, base_cfg([{"name": "rev6", "type": "reverse", "protocol": "udp", "bind": "[::]:%d" % PE["rev6"], "target": "127.0.0.1:%d" % origins[0].port},
+                                      {"name": "rev4", "type": "reverse", "protocol": "udp", "bind": "127.0.0.1:%d" % PE["rev4"], "target": "127.0.0.1:%d" % origins[0].port}],
+                                     [{"name": "direct"}], [{"target": "direct"}], metrics_port=PE["api"], timeouts={"idle": 600, "udp": 2}), "E", wd)
+        try:
+            await E.start()
+            await asyncio.sleep(0.3)
+            exp_sessions = []
+            for lname in ("rev6", "rev4"):
+                sess_id += 1
+                s = Session("rev", "direct", client_id + 95, sess_id)
+                await s.open({"A.rev-direct": PE[lname]}, tag)
+                sessions.append(s)
+                exp_sessions.append((lname, s))
+
+            async def expiry_one(lname, s):
+                for phase in ("first session", "after the session expired"):
+                    for i in range(3 if phase != "first session" else 2):
+                        out.case()
+                        seq, p = s.send(args.seed, origins[0], 120)
+                        if await s.wait_reply(seq, 2.5) is None:
+                            out.violation("datagram lost without network loss (%s, reverse UDP listener bound to %s): rev via direct" % (phase, "[::]" if lname == "rev6" else "127.0.0.1"),
+                                          {"datagram_of_phase": i, "reached_origin": any(d == p for (_, _, d) in origins[0].got)})
+                            break
+                    if phase == "first session":
+                        await asyncio.sleep(4.6)   # udp idle timer 2 s + 1 s tick + collector
+                out.nontrivial(("rev", lname, "session-expiry-then-again"))
+            await asyncio.gather(*[expiry_one(l, s) for (l, s) in exp_sessions])
+        finally:
+            E.kill()
         # ---------------- global safety check over everything origins and clients received
         sent_index = {}
         for s in sessions:
